@@ -274,7 +274,8 @@ func (e *Exec) respToHarness(fr *frame, n *respNode, errmsg string) value {
 // ---- tidwall/resp Reader model ----
 
 type respReader struct {
-	cur *respCursor
+	cur  *respCursor
+	pipe *pipeEnd // non-nil: the reader takes its bytes from this end of a modelled net.Pipe
 }
 
 func init() {
@@ -296,9 +297,40 @@ func init() {
 	}
 	intrinsics["(*github.com/tidwall/resp.Reader).ReadValue"] = func(fr *frame, args []value) value {
 		e := fr.i.ex
-		rr := (*(args[0].(*value))).(*opaque).data.(*respReader)
+		rp, _ := args[0].(*value)
+		if rp == nil {
+			panic(abortPath{why: "resp.Conn reader over a connection that is not a modelled pipe", kind: "unsupported"})
+		}
+		rr := (*rp).(*opaque).data.(*respReader)
 		vt := fr.i.prog.ImportedPackage("github.com/tidwall/resp").Type("Value").Type()
 		zeroV := zero(vt)
+		if rr.pipe != nil {
+			// wait for bytes, then read one value from the front of the pipe's buffer and consume it
+			buf := rr.pipe.rd
+			fr.i.blockUntil(func() bool { return !buf.empty() || buf.closed }, "read on a pipe nobody writes to")
+			if buf.empty() {
+				return tuple{zeroV, 0, fr.i.ioEOF()}
+			}
+			cur := &respCursor{p: buf.p}
+			node, err := e.respParse(cur, 0)
+			if err != nil {
+				return tuple{zeroV, 0, fr.i.newError(fr, "Protocol error: "+err.msg)}
+			}
+			var rest []piece
+			if cur.i < len(cur.p) {
+				if cur.p[cur.i].k == pLit {
+					if cur.off < len(cur.p[cur.i].lit) {
+						rest = append(rest, piece{k: pLit, lit: cur.p[cur.i].lit[cur.off:]})
+					}
+					rest = append(rest, cur.p[cur.i+1:]...)
+				} else {
+					rest = append(rest, cur.p[cur.i:]...)
+				}
+			}
+			buf.p = rest
+			fr.i.progress++
+			return tuple{respNodeToValue(node), 0, nilErr()}
+		}
 		if rr.cur.eof() {
 			return tuple{zeroV, 0, fr.i.ioEOF()}
 		}
@@ -441,7 +473,14 @@ func init() {
 	intrinsics["github.com/tidwall/resp.NewConn"] = func(fr *frame, args []value) value {
 		// &Conn{Reader *Reader, Writer *Writer, base net.Conn, RemoteAddr string}
 		var w value = &opaque{kind: "respwriter", data: args[0]}
-		var c value = structure{(*value)(nil), &w, args[0], ""}
+		var rd *value
+		if cv, ok := args[0].(iface); ok {
+			if pe := pipeOf(cv.v); pe != nil {
+				var r value = &opaque{kind: "respreader", data: &respReader{pipe: pe}}
+				rd = &r
+			}
+		}
+		var c value = structure{rd, &w, args[0], ""}
 		return &c
 	}
 	intrinsics["github.com/tidwall/resp.NewWriter"] = func(fr *frame, args []value) value {
